@@ -95,6 +95,15 @@ func exec(op string) string {
 		var o [32]byte
 		r.GetB32(o[:])
 		return "ok " + Hex(o[:])
+	case "fsqr": // fsqr a k : (a*k)^2 normalized (Sqr on a magnitude-k input)
+		var a, r secp.Field
+		a.SetB32(PHex(f[1]))
+		a.MulInt(uint32(PU64(f[2])))
+		a.Sqr(&r)
+		r.Normalize()
+		var o [32]byte
+		r.GetB32(o[:])
+		return "ok " + Hex(o[:])
 	case "finv": // finv a : a^-1 (0 for 0)
 		var a, r secp.Field
 		a.SetB32(PHex(f[1]))
@@ -287,7 +296,7 @@ func gen(r *Rng, tier string, emit func(string)) {
 	emit("newsec -")
 	emit("newsec " + Hex(r.Bytes(31)))
 	emit("newsec " + Hex(r.Bytes(33)))
-	for i := 0; i < 40*scale; i++ {
+	for i := 0; i < 24*scale; i++ {
 		v := randScalar(r, edges)
 		v.Mod(v, two256)
 		emit("newsec " + Hex(b32(v)))
@@ -300,7 +309,7 @@ func gen(r *Rng, tier string, emit func(string)) {
 	emit("newpub " + Hex(r.Bytes(65)))
 	emit("newpub " + Hex(make([]byte, 33)))
 	var somePubs [][]byte
-	for i := 0; i < 60*scale; i++ {
+	for i := 0; i < 36*scale; i++ {
 		var x *big.Int
 		switch r.Intn(6) {
 		case 0:
@@ -332,7 +341,7 @@ func gen(r *Rng, tier string, emit func(string)) {
 	}
 	// valid keys with an extreme ordinate (|y| tiny, or y next to p): the square root comes out of the field
 	// code in a non-canonical representation there, which is where parity decisions go wrong
-	for i := 0; i < 30*scale; i++ {
+	for i := 0; i < 20*scale; i++ {
 		yv := big.NewInt(int64(r.Intn(400)))
 		if r.Chance(15) {
 			yv = new(big.Int).SetUint64(r.U64() >> uint(r.Intn(40)))
@@ -378,6 +387,9 @@ func gen(r *Rng, tier string, emit func(string)) {
 		if i%3 == 0 {
 			emit("fmul " + Hex(b32(a)) + " " + Hex(b32(b)) + " " + strconv.Itoa(1+r.Intn(8)))
 		}
+		if i%4 == 0 {
+			emit("fsqr " + Hex(b32(a)) + " " + strconv.Itoa(1+r.Intn(8)))
+		}
 		if i%10 == 0 {
 			emit("finv " + Hex(b32(a)))
 		}
@@ -394,7 +406,17 @@ func gen(r *Rng, tier string, emit func(string)) {
 			xs = append(xs, pt, eclib.Neg(pt))
 		}
 	}
-	for i := 0; i < 12*scale; i++ {
+	// the endomorphism images of extreme points are extreme again: lambda*(x,y) = (beta*x, y), so the PRODUCT has the
+	// tiny ordinate (results, not only inputs, must be encoded from normalized coordinates)
+	lam2 := new(big.Int).Sub(add(eclib.N, -1), lambda) // lambda^2 = -1 - lambda (mod n)
+	for _, pt := range xs {
+		for _, k := range []*big.Int{lambda, lam2, new(big.Int).Sub(eclib.N, lambda), new(big.Int).Sub(eclib.N, lam2), add(eclib.N, -1)} {
+			if r.Chance(40) || thorough {
+				emit("mul " + Hex(eclib.Compress(pt)) + " " + Hex(b32(k)))
+			}
+		}
+	}
+	for i := 0; i < 8*scale; i++ {
 		p1 := xs[r.Intn(len(xs))]
 		p2 := xs[r.Intn(len(xs))]
 		if r.Chance(30) {
@@ -409,7 +431,7 @@ func gen(r *Rng, tier string, emit func(string)) {
 		}
 	}
 	// --- signing with explicit nonce, verification, recovery
-	nsig := 45 * scale
+	nsig := 30 * scale
 	for i := 0; i < nsig; i++ {
 		d := validScalar(r, edges)
 		k := validScalar(r, edges)
@@ -504,7 +526,7 @@ func gen(r *Rng, tier string, emit func(string)) {
 		}
 	}
 	// --- ECDH / point multiplication
-	for i := 0; i < 25*scale; i++ {
+	for i := 0; i < 16*scale; i++ {
 		var pub []byte
 		if r.Chance(75) || len(somePubs) == 0 {
 			pub = eclib.Compress(eclib.Mul(validScalar(r, edges), eclib.G))
